@@ -281,13 +281,14 @@ func meshQuiet(m *mesh.Mesh) bool {
 	return true
 }
 
-// waitQuiescent waits until the event count has been stable for `stable` and (if m != nil) all links are empty.
+// waitQuiescent waits until the number of data-plane events has been stable for `stable` and (if m != nil) no data frame
+// is queued on a link.
 func waitQuiescent(col *collector, m *mesh.Mesh, stable, timeout time.Duration) bool {
 	deadline := time.Now().Add(timeout)
-	last, since := col.Len(), time.Now()
+	last, since := col.dpCount(), time.Now()
 	for {
 		time.Sleep(5 * time.Millisecond)
-		cur := col.Len()
+		cur := col.dpCount()
 		if cur != last || (m != nil && !meshQuiet(m)) {
 			last, since = cur, time.Now()
 		} else if time.Since(since) >= stable {
